@@ -59,6 +59,7 @@ func vfStickyURLs() []*url.URL {
 		{Scheme: "http", Host: "b:81", Path: "/y", User: url.UserPassword("u", "p"), RawQuery: "q=1|2"},
 		{Scheme: "https", Host: "c", Path: "/a/b", RawPath: "/a%2Fb"},
 		{Scheme: "http", Host: "a:80", Path: "/z?w#f%", RawPath: "/z%3Fw%23f%25"},
+		{Scheme: "http", Host: "a:81", Path: "/x"}, // differs from the first in the port only
 	}
 }
 
@@ -97,7 +98,7 @@ func VerifC11Codec() {
 	codec, ttl := vfCodec(kind)
 	us := vfStickyURLs()
 	var pool []*url.URL
-	var inPool [4]bool
+	var inPool [5]bool
 	for i := range us {
 		if verifBool(verifName("member", i)) {
 			pool = append(pool, us[i])
@@ -196,6 +197,16 @@ func VerifC11Routing() {
 	verifAssert("stale-cookie-still-served", verifAnd(down.calls == 3, len(rec3.Codes) == 1))
 	verifAssert("stale-cookie-goes-to-a-member", verifAnd(!sameURL(down.seen, us[target]), vfIdentOfSticky(us, down.seen) >= 0))
 	verifAssert("stale-cookie-gets-fresh-cookie", rec3.Header().Get("Set-Cookie") != "")
+	// 4. a cookie nobody issued (garbage, undecodable, a non-member's) is not an error: the
+	// request is balanced normally and answered with a fresh cookie, through either balancer
+	bad := []string{"garbage", "%zz", "aHR0cDovL2E6ODAveA", "", "ENC<other-key>http://b:81/y"}[verifConcretize(verifInt("badCookie"), 0, 4)]
+	req4 := &http.Request{URL: &url.URL{Path: "/r"}, Header: http.Header{}}
+	req4.AddCookie(&http.Cookie{Name: "sid", Value: bad})
+	rec4 := &verifRecorder{}
+	serve(rec4, req4)
+	verifAssert("unknown-cookie-still-served", verifAnd(down.calls == 4, verifAnd(len(rec4.Codes) == 1, rec4.code(0) == http.StatusOK)))
+	verifAssert("unknown-cookie-goes-to-a-member", verifAnd(!sameURL(down.seen, us[target]), vfIdentOfSticky(us, down.seen) >= 0))
+	verifAssert("unknown-cookie-gets-fresh-cookie", rec4.Header().Get("Set-Cookie") != "")
 	_ = first
 	verifReach("end")
 }
